@@ -221,6 +221,19 @@ class Repo:
                 src = src[1:]
             try:
                 self.modules[rel] = Module(rel, src)
+            except SyntaxError as e:
+                self.errors.append('%s: %s' % (rel, e))
+        # repo-wide pre-passes that must see every module before any per-module normalisation
+        if os.environ.get('SA_NO_CANON') != '1':
+            from . import canon as _cn0
+            for rel, m_ in self.modules.items():
+                if _cn0.strip_local_annotations(m_):
+                    m_.reindex()
+            fr = _cn0.normalise_function_names(self)
+            if fr:
+                self.functions_renamed = fr
+        for rel in list(self.modules):
+            try:
                 if os.environ.get('SA_NO_RENAME') != '1':
                     # first pass: a function whose locals were merely renamed gets its reference names back BEFORE the
                     # temporaries pass (S9), which would otherwise take a renamed local for a fresh temporary
